@@ -41,6 +41,9 @@ var templates = []string{
 	"v := \"a#{1 + 1}b#{[§1,§2§].len}c\"§v",
 	"[§[§1,§2§],§{§a: [§3§]§}§]",
 	"r := (1:§10)§r.A" + "",
+	// raw strings keep their physical line breaks (LF and CR LF) whatever surrounds them
+	"s := `one\r\ntwo\r\n`§t := `a\nb`§[§s,§t§]",
+	"f(§`x\r\n\r\ny`,§`\r\n`§)",
 }
 
 // Case: a base program and one variant of it.
@@ -429,6 +432,12 @@ func TestChunkedReaders(t *testing.T) {
 				rt.Skip("unreadable")
 			}
 			src = string(b)
+		}
+		crlf := rapid.IntRange(0, 3).Draw(rt, "crlf file") == 0
+		if crlf {
+			// the same file saved with CR LF line ends (also inside its multi-line raw strings)
+			src = strings.ReplaceAll(strings.ReplaceAll(src, "\r\n", "\n"), "\n", "\r\n")
+			vt.Class("chunking a CR LF source")
 		}
 		if _, err := interp.Parse(src); err != nil {
 			rt.Skip("source does not parse")
